@@ -139,6 +139,23 @@ fn total_like(line: &[String]) -> bool {
 }
 
 fn gen_rows(r: &mut Rng) -> Vec<Row> {
+    // a dust position (0.0 %) listed before a holding that prints as 100.0 % (a rounded figure) and
+    // whose description spans several lines, so that its figures stand on their own line
+    if r.chance(8) {
+        let mut rows = Vec::new();
+        for _ in 0..(1 + r.below(2)) {
+            let len = 2 + r.below(3) as usize;
+            rows.push(Row { desc: vec![gen_desc_line(r, len)], alloc: "0.0".to_string(), fmv: gen_money(r), own_line: false });
+        }
+        let nl = 2 + r.below(2) as usize;
+        rows.push(Row {
+            desc: (0..nl).map(|_| { let n = 1 + r.below(4) as usize; gen_desc_line(r, n) }).collect(),
+            alloc: if r.chance(70) { "100.0".to_string() } else { "100.00".to_string() },
+            fmv: gen_money(r),
+            own_line: true,
+        });
+        return rows;
+    }
     let single = r.chance(22);
     let n = if single {
         1
